@@ -1,63 +1,93 @@
 import ErgoVerif.Lemmas.Meta
+import ErgoVerif.Generated.Meta
 /-!
 # C01 / C05 — meta-processes
 
 `Model/Meta.lean`: the meta state-word protocol. The `Start` callback runs concurrently with the mailbox handler by
 design (it is the meta-process's own blocking loop) and is not one of the callbacks the property lists; the statements
-below are about the mailbox handlers (HandleMessage / HandleCall / HandleInspect) and `Terminate`.
+below are about the mailbox handlers (HandleMessage / HandleCall / HandleInspect) and `Terminate`. They are stated for
+the code shape regenerated from node/meta.go (`Gen.Meta.startHandsOff`): a `Start` that is over while a handler is
+inside a callback leaves the termination to the handler goroutine.
 -/
 namespace ErgoVerif.Props.C01Meta
 open ErgoVerif ErgoVerif.Meta
 
+/-- the code as it is (regenerated) -/
+abbrev ho : Bool := ErgoVerif.Gen.Meta.startHandsOff
+
+theorem ho_true : ho = true := by decide
+
+/-- reachability for the code as it is -/
+theorem reach_inv' {c : Cfg} (h : Reach ho c) : Meta.Inv c := by
+  have h' : Reach true c := by rw [← ho_true]; exact h
+  exact reach_inv h'
+
 /-- **One mailbox handler at a time**: for any number of senders and any interleaving, at most one goroutine is
 inside the handler loop of a meta-process (and at most one holds the right to start one). -/
-theorem C01_meta_handlers_serial (c : Cfg) (h : Reach c) : c.rb ≤ 1 ∧ c.h1 + c.r0 + c.rb + c.r3 + c.rE ≤ 1 := by
-  have hi := reach_inv h
+theorem C01_meta_handlers_serial (c : Cfg) (h : Reach ho c) : c.rb ≤ 1 ∧ c.h1 + c.r0 + c.rb + c.r3 + c.rE ≤ 1 := by
+  have hi := reach_inv' h
   unfold Meta.Inv at hi
   omega
 
 /-- **Terminate at most once** (C05): the swap to `terminated` elects a single finaliser among the start goroutine
 and the handler goroutine. -/
-theorem C05_meta_terminate_once (c : Cfg) (h : Reach c) : c.terms ≤ 1 ∧ c.tmS + c.tmH ≤ c.terms := by
-  have hi := reach_inv h
+theorem C05_meta_terminate_once (c : Cfg) (h : Reach ho c) : c.terms ≤ 1 ∧ c.tmS + c.tmH ≤ c.terms := by
+  have hi := reach_inv' h
   unfold Meta.Inv at hi
   omega
 
 /-- after Terminate has started no handler is started any more: the word never leaves `terminated` -/
-theorem C05_meta_final (c : Cfg) (h : Reach c) (ht : c.terms = 1) : c.st = .terminated := by
-  have hi := reach_inv h
+theorem C05_meta_final (c : Cfg) (h : Reach ho c) (ht : c.terms = 1) : c.st = .terminated := by
+  have hi := reach_inv' h
   unfold Meta.Inv at hi
-  obtain ⟨st, a0, a1, a2, s1, h0, h1, r0, rb, r3, r4, r5, rE, tmS, tmH, mail, handled, terms⟩ := c
+  obtain ⟨st, a0, a1, a2, s1, h0, h1, r0, rb, r3, r4, r5, rE, tmS, tmH, mail, handled, terms, pend⟩ := c
   cases st <;> simp at hi ht ⊢ <;> omega
 
-/-- the full statement for meta-processes: Terminate never overlaps a mailbox handler -/
-def C01_meta_full : Prop := ∀ c, Reach c → c.rb + c.tmS + c.tmH ≤ 1
+/-- the full statement for meta-processes: Terminate never overlaps a mailbox handler (nor a goroutine that holds the
+right to run one), whoever runs it -/
+def C01_meta_full (b : Bool) : Prop := ∀ c, Reach b c → c.rb + c.tmS + c.tmH ≤ 1 ∧ (c.tmS + c.tmH ≥ 1 → c.h1 + c.r0 + c.rb + c.r3 + c.rE = 0)
 
-/-- it is false for the code as it is (defect D22): when `Start` returns while a handler is executing, the start
-goroutine wins the swap and runs `Terminate` concurrently with the handler. -/
-theorem C01_meta_counterexample : ¬ C01_meta_full := by
-  intro h
-  have := h _ ⟨[.storeSleep, .newSender, .push, .cas, .go, .runner, .pop, .startRet, .swapStart], rfl⟩
-  revert this; decide
-
-/-- **Partial**: a Terminate entered by the handler goroutine itself (handler error, exit message) never overlaps a
-handler, and neither does any Terminate unless `Start` returned while a handler was running. -/
-theorem C01_meta_partial (c : Cfg) (h : Reach c) : c.rb + c.tmH ≤ 1 ∧ (c.tmH ≥ 1 → c.rb = 0) := by
-  have hi := reach_inv h
+/-- **Terminate does not overlap a handler, for the code as it is** (C01), **and starts only after the last handler has
+finished** (C05): for any number of senders, any interleaving, and whenever `Start` returns. -/
+theorem C01_meta : C01_meta_full ho := by
+  intro c h
+  have hi := reach_inv' h
   unfold Meta.Inv at hi
   omega
+
+/-- the code before the repair of D22 (whoever swaps first runs Terminate at once): when `Start` returned while a
+handler was executing, the start goroutine ran `Terminate` concurrently with the handler. Kept as a regression
+statement. -/
+theorem C01_meta_D22_before_fix : ¬ C01_meta_full false := by
+  intro h
+  have := (h _ ⟨[.storeSleep, .newSender, .push, .cas, .go, .runner, .pop, .startRet, .swapStart], rfl⟩).1
+  revert this; decide
+
+/-- when `Start` is over while a handler is inside a callback, the termination is not lost: it is pending, the handler
+goroutine exists, and it is the only one that will run it -/
+theorem C05_meta_handoff_pending (c : Cfg) (h : Reach ho c) (hp : c.pend = 1) :
+    c.st = .terminated ∧ c.terms = 0 ∧ c.h1 + c.r0 + c.rb + c.r3 + c.rE = 1 := by
+  have hi := reach_inv' h
+  unfold Meta.Inv at hi
+  obtain ⟨st, a0, a1, a2, s1, h0, h1, r0, rb, r3, r4, r5, rE, tmS, tmH, mail, handled, terms, pend⟩ := c
+  cases st <;> simp at hi hp ⊢ <;> omega
 
 /-- **No lost wake-up for the meta mailbox**: when nothing can move and the meta-process sleeps, its mailbox is
 empty. -/
-theorem C02_meta_no_lost_wakeup (c : Cfg) (h : Reach c) (hs : c.st = .sleep)
+theorem C02_meta_no_lost_wakeup (c : Cfg) (h : Reach ho c) (hs : c.st = .sleep)
     (hq : c.h0 = 0 ∧ c.r4 = 0 ∧ c.r5 = 0) : c.mail = 0 := by
-  have hi := reach_inv h
+  have hi := reach_inv' h
   unfold Meta.Inv at hi
-  have := hi.2.2.2.2.2.2.2.2.2.2 hs
+  have := hi.2.2.2.2.2.2.2.2.2.2.2.2 hs
   omega
 
 /-- non-vacuity -/
-example : ∃ c, Reach c ∧ c.rb = 1 ∧ c.a1 = 1 ∧ c.handled = 1 :=
+example : ∃ c, Reach ho c ∧ c.rb = 1 ∧ c.a1 = 1 ∧ c.handled = 1 :=
   ⟨_, ⟨[.storeSleep, .newSender, .push, .cas, .cas, .go, .runner, .pop], rfl⟩, by decide⟩
+
+/-- the hand-off at work: Start returns while a handler is in a callback; the handler goroutine runs Terminate when its
+loop is over -/
+example : ∃ c, Reach ho c ∧ c.tmH = 1 ∧ c.tmS = 0 ∧ c.terms = 1 ∧ c.rb = 0 :=
+  ⟨_, ⟨[.storeSleep, .newSender, .push, .cas, .go, .runner, .pop, .startRet, .swapStart, .loopEnd, .casSleep], rfl⟩, by decide⟩
 
 end ErgoVerif.Props.C01Meta
